@@ -51,6 +51,13 @@ pub fn generate(u: &mut Unit, rng: &mut Rng, n: usize) {
             3 => (1 + rng.below(3)) * TREE_FRAMES + rng.below(HUGE_FRAMES + 70),
             4 => (1 + rng.below(3)) * TREE_FRAMES - rng.below(70),
             5 => HUGE_FRAMES + rng.below(3 * HUGE_FRAMES),
+            6 => {
+                // the managed size is a whole number of huge frames (most of them with a partial last tree): the
+                // boundary of the table scans in create and recover
+                let n = (1 + rng.below(3 * TREE_HUGE)) * HUGE_FRAMES;
+                let probe = Config { frames: n, classes: vec![(0, 1), (1, 1)], default: 1, pol: Pol::Simple }.classing();
+                n + 1 + LLFree::metadata_size(&probe, n).lower.div_ceil(Frame::SIZE) + rng.below(2)
+            }
             _ => 1 + rng.below(3 * TREE_FRAMES),
         };
         let region = Region::new(z * Frame::SIZE, rng.below(3));
